@@ -339,11 +339,75 @@ class CustomFootnoteDef(footnote.FootnoteDef):
         return "footnote_def" if snake_case else "FootnoteDef"
 
 
+class TemplateTag(inline.InlineElement):
+    """
+    A template tag inside a paragraph: `{% tag %}`, `{# comment #}`, `{{ variable }}`.
+
+    What is inside a tag is not Markdown: without this element `{{ __version__ }}` is read
+    as strong emphasis and comes back as `{{ **version** }}`, and `{# _note_ #}` as
+    `{# *note* #}`. Like a code span, a tag takes precedence over emphasis and links. It
+    only shields its text from the inline parser: `CustomParser` turns it back into raw
+    text, so that everything downstream (line wrapping, smart quotes, ellipses) sees the
+    tag inside its surrounding text as before.
+    """
+
+    priority: int = 7
+    pattern: re.Pattern[str] = re.compile(r"\{%.*?%\}|\{#.*?#\}|\{\{.*?\}\}", re.DOTALL)
+    parse_children: bool = False
+    parse_group: int = 0
+
+    def __init__(self, match: re.Match[str]) -> None:  # pyright: ignore[reportMissingSuperCall]
+        self.children: str = match.group(0)
+
+    @override
+    @classmethod
+    def find(cls, text: str, *, source: Source) -> Iterator[re.Match[str]]:
+        # Not `pattern.finditer()`: see `find_template_tags()`.
+        for start, _end in find_template_tags(text):
+            match = cls.pattern.match(text, start)
+            if match:  # Not an HTML comment, which is inline HTML for Marko already.
+                yield match
+
+
+def _template_tags_to_raw_text(element: Any) -> None:
+    """
+    Replace every `TemplateTag` by raw text, joined with the raw text next to it.
+    """
+    children = getattr(element, "children", None)
+    if not isinstance(children, list):
+        return
+    merged: list[Any] = []
+    has_tag = False
+    for child in cast(list[Any], children):
+        if isinstance(child, TemplateTag):
+            has_tag = True
+            child = inline.RawText(child.children)
+        elif not isinstance(child, inline.RawText):
+            _template_tags_to_raw_text(child)
+        if (
+            isinstance(child, inline.RawText)
+            and merged
+            and isinstance(merged[-1], inline.RawText)
+        ):
+            merged[-1] = inline.RawText(merged[-1].children + child.children)
+        else:
+            merged.append(child)
+    if has_tag:
+        element.children = merged
+
+
 class CustomParser(Parser):
     def __init__(self) -> None:
         super().__init__()
         self.block_elements["HTMLBlock"] = CustomHTMLBlock
         self.block_elements["FencedCode"] = CustomFencedCode
+        self.add_element(TemplateTag)
+
+    @override
+    def parse(self, text: str) -> Any:
+        document = super().parse(text)
+        _template_tags_to_raw_text(document)
+        return document
 
 
 class MarkdownNormalizer(Renderer):
